@@ -131,6 +131,8 @@ class _Prog:
 
     @staticmethod
     def seq(items):
+        if any(x == "PJump" for x in items):
+            items = [x for x in items if x != "PJump"] + ["PJump"]
         items = [x for x in items if x != "PSkip"]
         if not items:
             return "PSkip"
@@ -139,8 +141,21 @@ class _Prog:
             t = f"(PSeq {x} {t})"
         return t
 
-    def block(self, stmts):
-        return self.seq([self.stmt(s) for s in stmts])
+    def block(self, stmts, in_loop=False):
+        """statement list; inside a loop body `if c: X; continue` followed by REST is the structured
+        `if c: X else: REST` (same executions), which removes the jump"""
+        out = []
+        for k, st in enumerate(stmts):
+            if (in_loop and isinstance(st, ast.If) and not st.orelse and st.body and isinstance(st.body[-1], ast.Continue)
+                    and not any(isinstance(n, (ast.Break, ast.Continue)) for b in st.body[:-1] for n in ast.walk(b))):
+                a = self.block(st.body[:-1], in_loop)
+                b = self.block(stmts[k + 1:], in_loop)
+                out += self.events(st.test)
+                if (a, b) != ("PSkip", "PSkip"):
+                    out.append(f"(PIf {a} {b})")
+                return self.seq(out)
+            out.append(self.stmt(st))
+        return self.seq(out)
 
     def stmt(self, s):
         if isinstance(s, (ast.Import, ast.ImportFrom, ast.Pass, ast.Global, ast.Nonlocal)):
@@ -162,24 +177,32 @@ class _Prog:
             if s.orelse:
                 raise SiteError("loop with an else clause")
             head = self.events(s.iter if isinstance(s, ast.For) else s.test)
-            body = self.block(s.body)
-            jumps = any(isinstance(n, (ast.Break, ast.Continue)) for n in ast.walk(s))
+            body = self.block(s.body, in_loop=True)
+            jumps = "PJump" in body
             if jumps:
-                if body != "PSkip":
+                if any(tok in body for tok in ("PVal", "PKer", "PRaise", "PReturn")):
                     raise SiteError("loop with break/continue around validator / kernel calls")
                 return self.seq(head)
             if isinstance(s, ast.While):
                 body = self.seq([body] + head)
             return self.seq(head + ([f"(PLoop {body})"] if body != "PSkip" else []))
         if isinstance(s, ast.Try):
-            parts = [self.block(s.body), self.block(s.orelse), self.block(s.finalbody)] + [self.block(h.body) for h in s.handlers]
-            if any(x != "PSkip" for x in parts):
-                raise SiteError("try block around validator / kernel calls")
-            return "PSkip"
+            # the guarded body must be free of validator / kernel calls (so a partial execution of it is
+            # invisible); then: either it completes (-> else clause) or one of the handlers runs
+            if self.block(s.body) != "PSkip" or self.block(s.finalbody) != "PSkip":
+                raise SiteError("try body / finally with validator / kernel calls")
+            t = self.block(s.orelse)
+            for h in s.handlers:
+                hb = self.block(h.body)
+                if (t, hb) != ("PSkip", "PSkip"):
+                    t = f"(PIf {t} {hb})"
+            return t
         if isinstance(s, (ast.Break, ast.Continue)):
-            return "PSkip"
-        if isinstance(s, (ast.FunctionDef, ast.ClassDef)):
-            raise SiteError("nested definition")
+            return "PJump"          # only legal where the enclosing loop body has no validator / kernel / raise
+        if isinstance(s, ast.FunctionDef):
+            return "PSkip"          # defining a helper executes nothing; every CALL of it must be classified by name
+        if isinstance(s, ast.ClassDef):
+            raise SiteError("nested class definition")
         raise SiteError(f"statement `{type(s).__name__}`")
 
 
